@@ -242,12 +242,28 @@ theorem btclib_dispatch_is_the_name_table :
     NUMEQUAL NUMNOTEQUAL LESSTHAN GREATERTHAN LESSTHANOREQUAL GREATERTHANOREQUAL MIN MAX; VERIFY IFDUP 1NEGATE DEPTH SIZE
     WITHIN EQUAL — btclib's op-code function (pop order, IndexError, `_to_num`/`_to_bool`/`encode_num`) and the case of
     Core's switch accept the same stacks and leave the same stacks, for every stack, altstack and flag set.
-    Not covered yet: PICK, ROLL, CHECKLOCKTIMEVERIFY, CHECKSEQUENCEVERIFY, the signature op codes. -/
+    PICK, ROLL, CHECKLOCKTIMEVERIFY, CHECKSEQUENCEVERIFY: next theorem.  Not covered: the conditionals (inline in the
+    loop) and the signature op codes. -/
 theorem operations_refine_Core_partial (cx : Btclib.Ctx) (sc : Bytes) (code : Nat) (h : code ∈ Refine.covered)
     (stack alt : List Bytes) :
     Refine.btRes (Btclib.operation cx code stack alt)
       = Refine.coreRes (Core.execStackOp (Refine.coreCx cx sc) stack alt code) :=
   Refine.operation_refines cx sc code h stack alt
+
+/-- T3, op level, `_partial` (continued): OP_PICK and OP_ROLL (negative / too deep / zero depth, Python's negative
+    indexing against Core's bounds test), OP_CHECKLOCKTIMEVERIFY (kind threshold 500000000 on both sides, operand
+    against the field, final sequence, 5-byte operand) and OP_CHECKSEQUENCEVERIFY (bit 31 disable on both sides,
+    version 2, bit 22 kind, 16-bit mask: btclib's three bit tests against Core's masked comparison) accept the same
+    stacks / transaction fields as the cases of Core's switch, and leave the same stack. -/
+theorem locktime_pick_roll_refine_Core_partial (cx : Btclib.Ctx) (sc : Bytes) (stack alt : List Bytes) :
+    (Btclib.cltv cx stack).map (fun _ => stack) = Refine.okOpt (Core.execCltv (Refine.coreCx cx sc) stack) ∧
+    (Btclib.csv cx stack).map (fun _ => stack) = Refine.okOpt (Core.execCsv (Refine.coreCx cx sc) stack) ∧
+    Refine.btRes (Btclib.operation cx 0x79 stack alt)
+      = (Refine.okOpt (Core.execPickRoll (Refine.coreCx cx sc) stack false)).map (·, alt) ∧
+    Refine.btRes (Btclib.operation cx 0x7a stack alt)
+      = (Refine.okOpt (Core.execPickRoll (Refine.coreCx cx sc) stack true)).map (·, alt) :=
+  ⟨Refine.cltv_core cx sc stack, Refine.csv_core cx sc stack, (Refine.pick_roll_core cx sc stack alt).1,
+   (Refine.pick_roll_core cx sc stack alt).2⟩
 
 /-- T3, the expansion trick: `OP_EQUALVERIFY` / `OP_NUMEQUALVERIFY` re-fed as `[OP_EQUAL, OP_VERIFY]` /
     `[OP_NUMEQUAL, OP_VERIFY]` leave what Core's fused op codes leave, and refuse when they do. -/
